@@ -64,10 +64,15 @@ class Scenario:
             return
         if st[0] == 'deliver' and not internal:
             self.bare.add(st[1])
-        elif st[0] == 'round' and st[2] > 0:
-            self.bare.discard(st[1])     # the real loop gave every Proxy of that end its callback after the frames
+        src = None
+        if st[0] == 'round':
+            src = self.t.smux if st[1] == 'c' else self.t.cmux
+            n0 = len(src.outbuf)
         if not self.s.do(st):
             self.stop = True
+        if src is not None and len(src.outbuf) < n0:
+            # frames really arrived in that pass: the real loop gave every Proxy of that end its callback after them
+            self.bare.discard(st[1])
 
     def written(self, i, side):
         return self.wrote.get((i, side), b'')
